@@ -14,6 +14,7 @@ from fractions import Fraction as F
 from lib.vcommon import coq_list
 
 QUARTERS = [F(0), F(1, 4), F(1, 2), F(1)]
+WORKERS = 4        # parallel coqc processes for the case files
 MAX_DEN = 1 << 10
 
 
@@ -393,7 +394,7 @@ HEADER = ("From Coq Require Import List ZArith QArith.\nFrom LNML Require Import
 
 COMPONENT = {1: "actual_prox", 2: "seg_length", 3: "adjacency", 4: "get_graph", 5: "morphology_root",
              6: "branching_points", 7: "extremities", 8: "nx_dist", 9: "nx_sssp", 10: "segments_at_distance",
-             11: "ordered_run"}
+             11: "ordered_run", 12: "outside-the-domain(wfb/root_has_proxb)"}
 
 
 def parse_mismatches(s):
@@ -524,7 +525,7 @@ def gen_cases(ck):
                 c = make_case(rng, segs)
                 c["_kind"] = "exhaustive-shape:n=%d" % n
                 cases.append(c)
-    nrand = ck.n(150, 1500)
+    nrand = ck.n(150, 3000)
     for k in range(nrand):
         r = rng.random()
         n = rng.randrange(1, 9) if r < 0.35 else rng.randrange(9, 30) if r < 0.9 else rng.randrange(30, ck.n(60, 120))
@@ -648,11 +649,16 @@ def run(ck):
     # ---- the kernel diffs model and implementation
     CH = 150
     total_mis = 0
+    jobs = []
     for fi, k in enumerate(range(0, len(cases), CH)):
         chunk = list(zip(cases[k:k + CH], norm[k:k + CH]))
         body = ";\n".join("(%s,\n %s)" % (ccell(c["_segs"]), cobs(n, c["_resolved"])) for c, n in chunk)
         text = HEADER + "Definition cases : list case13 := [\n%s\n].\nEval vm_compute in (mismatches cases).\n" % body
-        ok, res, outp = ck.coq_eval("Cases_C13_%d.v" % fi, text, timeout=900)
+        jobs.append((fi, chunk, text))
+    from concurrent.futures import ThreadPoolExecutor
+    with ThreadPoolExecutor(max_workers=WORKERS) as ex:     # coqc subprocesses; file names are distinct
+        outs = list(ex.map(lambda j: ck.coq_eval("Cases_C13_%d.v" % j[0], j[2], timeout=1500), jobs))
+    for (fi, chunk, _), (ok, res, outp) in zip(jobs, outs):
         name = "Cases_C13_%d.v:mismatches=[]" % fi
         if not ok or not res:
             ck.oblige(name, False, outp[-1500:], kind="correspondence")
@@ -679,7 +685,7 @@ def run(ck):
 
 def component_of(n, comp):
     return {1: n["aprox"], 2: n["lens"], 3: n["adj"], 4: n["graph"], 5: n["root"], 6: n["bp"], 7: n["tips"],
-            8: n["pairs"], 9: n["all"], 10: n["ats"], 11: n.get("ord")}.get(comp)
+            8: n["pairs"], 9: n["all"], 10: n["ats"], 11: n.get("ord"), 12: "the generated cell is not a tree with a root proximal"}.get(comp)
 
 
 def model_output(ck, c, n, k):
